@@ -909,6 +909,10 @@ class Pass2(CompilePass):
         if node.type == Type.UNKNOWN:
             raise CompileError(EC.TYPE_MISMATCH, node=node)
 
+        if node.left.type.is_array or node.right.type.is_array:
+            # a whole array is not a value
+            raise CompileError(EC.TYPE_MISMATCH, node=node)
+
     def process_unary_op_pre(self, node):
         # unary operators (NOT, +, -) are only valid on numeric
         # expressions.
